@@ -175,7 +175,23 @@ R16 = {
  "C17": "xds: retry_on is converted condition by condition with the retriable status codes; the direct response body is read from every kind of DataSource specifier (exhaustive over the oneof); a fired global timeout is sticky and stops the retries",
  "C20": "every raw (json.RawMessage) section of the bootstrap config is redacted before the dump (computed from the type)",
 }
-GENERIC = "generic hygiene over the property's packages: no loop-variable address escapes its iteration, every mutex acquired in a function is released on every path to its return and not re-acquired in a callee, a field accessed through sync/atomic is never accessed plainly outside construction (frozen exceptions), storage given back to a pool is not returned or stored, no append onto a loop-invariant slice whose result is kept, no signed remainder of a converted unsigned 64-bit value or of a wrapping signed 32-bit counter, no remainder of a 32-bit sum with an unreduced atomic counter"
+R17 = {
+ "C01": "the HTTP/1 client only looks at the request body buffer, it never hands it over as a reader that drains it (a retry forwards the same body)",
+ "C02": "behind a write attempt every return of the connection's write passes the error check that closes the connection on a write timeout (a partly written frame is never followed by another frame)",
+ "C03": "setting up a retry neither stops nor clears the global response timer",
+ "C04": "the default route handler hands out the route the matcher chose: it refuses only when there is none, never because of cluster state",
+ "C06": "the weight handed to the weighted round-robin scheduler is the host's configured weight on every path (no health-dependent weight)",
+ "C07": "need-more-data always waits: no amount of buffered bytes turns it into another verdict",
+ "C11": "the relay of late writes to a handed-over connection never removes the connection from the transfer map",
+ "C12": "SetRouter records the router_configs path the update carries, unconditionally",
+ "C13": "an sds tls context is rebuilt on every config update, or the comparison that skips the rebuild covers every config field the context is built from",
+ "C14": "every stream filter factory hands the chain a filter object made for that stream, never one kept in the factory",
+ "C15": "every weighted cluster entry carries the criteria built from its own metadata_match, unconditionally",
+ "C17": "setting up a retry neither stops nor clears the global response timer; every configured header addition becomes one addition (pairs only appended, none replaced or skipped)",
+ "C18": "the byte count of a flow-control window is written only by the window type's own operations",
+ "C19": "no list whose order is meaningful on reload (extends, filters, chains, routes, virtual hosts, weighted clusters, hosts) is sorted on the dump path",
+}
+GENERIC = "generic hygiene over the property's packages: no loop-variable address escapes its iteration, every mutex acquired in a function is released on every path to its return and not re-acquired in a callee, a field accessed through sync/atomic is never accessed plainly outside construction (frozen exceptions), storage given back to a pool is not returned or stored, no append onto a loop-invariant slice whose result is kept, no signed remainder of a converted unsigned 64-bit value or of a wrapping signed 32-bit counter, no remainder of a 32-bit sum with an unreduced atomic counter, a receiver field a method rewrites is not retained by what the method hands it to, a key looked up in a map field under a mutex and inserted when absent is inserted in the same critical section"
 props = [json.loads(l)['id'] for l in open('/verif/properties.jsonl')]
 checks, na = [], []
 for p in props:
@@ -196,6 +212,8 @@ for p in props:
         dec = dec + "; " + R15[p]
     if p in R16:
         dec = dec + "; " + R16[p]
+    if p in R17:
+        dec = dec + "; " + R17[p]
     dec = dec + "; " + GENERIC
     tech = tech + ", lock-balance and atomic-discipline dataflow"
     if p in R8:
